@@ -49,12 +49,13 @@ def run(F, R, tier):
     A, fns, keys = audit_run.run_audit(F, R, ROOTS + br, runtime_fn, "run time", link_ops=True)
     R.floor("run-time functions audited", len(fns), 280)
     # stale justifications (only those that name a function of this audit)
-    for gi, g in enumerate(A.groups):
+    default_cfg = getattr(F, "config", "default") == "default"  # table bookkeeping is held to the default configuration
+    for gi, g in enumerate(A.groups if default_cfg else []):
         if g.get("fn") in fns:
             n = len(A.group_hits.get(gi, []))
             R.ob("justified-group-count", g["name"], n == g["count"],
                  "group justification matches %d sites, reviewed count is %d" % (n, g["count"]), nontrivial=False)
-    for k in A.justified:
+    for k in (A.justified if default_cfg else []):
         fn = k.split(" | ")[0]
         if fn in fns and k not in keys:
             R.ob("justified-site-stale", k, False, "tables/justified_sites.json names a site that no longer exists")
